@@ -341,12 +341,12 @@ def make_cases(tier, seed):
     def add(sig, sem, **kw):
         cases.append(gen_case(rng, sig, sem, **kw))
     # (1) the enumerated signatures: all of them in thorough, a sample in quick
-    pick = sigs if not quick else rng.sample(sigs, 700)
+    pick = sigs if not quick else rng.sample(sigs, 450)
     for i, sig in enumerate(pick):
         add(sig, SEMS[(i + seed) % 4], budget=200 if not quick else 300)
         if not quick: add(sig, SEMS[(i + seed + 2) % 4], budget=150)
     # (2) forced features on random enumerated signatures
-    nf = 60 if quick else 1500
+    nf = 45 if quick else 1500
     for feature in ("broadcast", "freshen", "zero", "unit", "grad"):
         for i in range(nf):
             sig = rng.choice(sigs)
@@ -360,7 +360,7 @@ def make_cases(tier, seed):
         for a in axes:
             for b in axes:
                 exh.append((t, a, b))
-    if quick and len(exh) > 150: exh = rng.sample(exh, 150)
+    if quick and len(exh) > 110: exh = rng.sample(exh, 110)
     def shift(e, k):
         if e[0] == "Phys": return ("Phys", (e[1][0] + k, e[1][1]))
         if e[0] == "Prod": return ("Prod", [shift(x, k) for x in e[1]])
@@ -380,10 +380,10 @@ def make_cases(tier, seed):
     # (4) the empty operand list, mv / mm, the Viterbi variant, repeated output indices
     for sem in SEMS: cases.append(dict(inputs=[], output=[], sem=sem, ops=[], genabled=True, variant="einsum", feature="empty"))
     cases.append(dict(inputs=[], output=[], sem="vit", ops=[], genabled=True, variant="vit", feature="empty"))
-    for i in range(40 if quick else 1000):
+    for i in range(30 if quick else 1000):
         c = gen_case(rng, ([[0, 1], [1]], [0]), SEMS[i % 4]); c["variant"] = "mv"; cases.append(c)
         c = gen_case(rng, ([[0, 1], [1, 2]], [0, 2]), SEMS[i % 4], budget=200); c["variant"] = "mm"; cases.append(c)
-    for i in range(250 if quick else 8000):
+    for i in range(180 if quick else 8000):
         sig = rng.choice(sigs)
         cases.append(gen_case(rng, sig, "vit", variant="vit", feature=rng.choice([None, None, "broadcast", "unit", "zero", "grad", "freshen", "posinf"]) if sig[0] else None))
     for i in range(12 if quick else 200):
@@ -392,7 +392,7 @@ def make_cases(tier, seed):
         cases.append(gen_case(rng, (ins, out), SEMS[i % 4], variant="einsum" if i % 3 else "vit", feature="dup-output")
                      if i % 3 else gen_case(rng, (ins, out), "vit", variant="vit", feature="dup-output"))
     # (5) larger random signatures (up to 3 operands of rank 3)
-    for i in range(80 if quick else 4000):
+    for i in range(50 if quick else 4000):
         nops = rng.choice([1, 2, 2, 3, 3]); used = 0; ins = []
         for _ in range(nops):
             w = []
